@@ -66,6 +66,8 @@ def gen(seed, tier):
                     continue
                 for op in ("nand", "nor", "lf"):
                     yield {"prop": PROP, "op": op, "d": 0, "dflt": 0, "ops": [a, b, c], "kind": "free"}
+                yield {"prop": PROP, "op": "nand", "d": 0, "dflt": 0, "ops": [a, b, c], "kind": "free",
+                       "form": ("right", "left", "hoisted")[k % 3]}
     for i in range(nrand // 2):
         kk = rng.choice([2, 3, 4])
         d = rng.choice([0, 0, 1])
@@ -204,7 +206,18 @@ def _run_nary(case):
     side = {}
     get = ft.Payload.get      # the payload tuple may or may not arrive boxed
     try:
-        if op == "nand":
+        form = case.get("form")
+        if op == "nand" and form in ("right", "left", "hoisted") and len(fibers) == 3:
+            # the same intersection written with the binary operator and a LAZY operand:
+            # a & (b & c), (a & b) & c, and bc = b & c built first and used afterwards
+            fa3, fb3, fc3 = fibers
+            if form == "left":
+                it = ((c, (get(pab)[0], get(pab)[1], pc)) for c, (pab, pc) in (fa3 & fb3) & fc3)
+            else:
+                bc = fb3 & fc3
+                it = ((c, (pa, get(pbc)[0], get(pbc)[1])) for c, (pa, pbc) in fa3 & bc)
+            rows = [[c, [_ref(f, p, dflt) for f, p in zip(fibers, ps)]] for c, ps in it]
+        elif op == "nand":
             rows = [[c, [_ref(f, p, dflt) for f, p in zip(fibers, get(ps))]] for c, ps in ft.Fiber.intersection(*fibers)]
         elif op == "lf":
             rows = [[c, _ref(fibers[0], get(ps)[0], dflt), [_ref(f, p, dflt) for f, p in zip(fibers[1:], get(ps)[1:])]]
